@@ -154,6 +154,14 @@ class URLInfo(object):
         info.encoding = encoding
 
         if scheme not in RELATIVE_SCHEME_DEFAULT_PORTS:
+            try:
+                url.encode('utf-8')
+            except UnicodeEncodeError as error:
+                # Lone surrogates. Such a string cannot be stored or logged.
+                raise ValueError(
+                    'URL is not Unicode text: {}'.format(ascii(url))
+                ) from error
+
             info.raw = url
             info.scheme = scheme
             info.path = remaining
